@@ -16,6 +16,7 @@ Verdict(e) ==
   ELSE IF e.k = "leaf"
   THEN IF ~DelimSafe(e.out, ec, e.fam) THEN "delimiter_unescaped"
        ELSE IF ~WellFormed(e.out, ec, e.fam) THEN "lone_escape_character"
+       ELSE IF "hl" \in DOMAIN e /\ e.hl THEN "ok"     \* (highlight markers are added: only safety and well-formedness are claimed)
        ELSE IF Stable(e.in, ec, e.fam) /\ e.out # e.in THEN "escaped_text_not_emitted_unchanged"
        ELSE IF e.out2 # e.out THEN "not_idempotent"
        ELSE "ok"
@@ -28,6 +29,8 @@ Verdict(e) ==
                  Len(a.fields[i][r][c]) # Len(b.fields[i][r][c]) THEN "subcomponent_count_changed"
        \* (an empty text leaves a present-but-empty element whose separators a re-parse trims: nothing was escaped)
        ELSE IF e.in # <<>> /\ e.reparsed # e.seg THEN "reparse_reencode_differs"
+       \* (e.orig: the segment text that was parsed, when the value came in by parsing)
+       ELSE IF "orig" \in DOMAIN e /\ e.orig # <<>> /\ e.seg # e.orig THEN "text_read_from_a_parsed_segment_reencodes_differently"
        ELSE "ok"
 \* non-trivial: the input holds a delimiter or an escape character
 Premise(e) == e.k # "leaf" \/ \E i \in 1..Len(e.in) : e.in[i] \in Delims(Ec(e), e.fam) \cup {e.ec[5]}
